@@ -298,6 +298,27 @@ impl Check for C13 {
         if importing {
             out.count("probe.import-world");
         }
+        // probe (no rule: no listed property speaks about a failing output sink): stdout fails
+        // with EPIPE after k bytes; what arrived must be a prefix of the fault-free output
+        if let Some(cmd) = sc.cmds.first() {
+            let p = &sc.procs[0];
+            let full = observe(&files, &no_faults, p, sc.today[0], cmd, out);
+            if full.ok && full.stdout.len() > 1 {
+                let k = (p.hash_seed as usize) % full.stdout.len();
+                let vfs = make_vfs(&files, &no_faults, p, sc.today[0]);
+                let cut = crate::exec::run_cli_sink(&vfs, p, cmd, Some((k, std::io::ErrorKind::BrokenPipe)));
+                out.count("fault.stdout-epipe");
+                if cut.panic.is_some() {
+                    out.count("probe.sink-failure-panicked");
+                } else if !cut.ok && full.stdout.starts_with(&cut.stdout) {
+                    out.count("probe.sink-failure-reported-and-output-is-a-prefix");
+                } else if cut.ok {
+                    out.count("probe.sink-failure-not-reported");
+                } else {
+                    out.count("probe.sink-failure-output-not-a-prefix");
+                }
+            }
+        }
         // stub fidelity: the shipped binary on a real directory prints what simulated process 0 prints
         if sc.real_leg {
             let (plain, _) = sc.world.render();
